@@ -3,7 +3,11 @@ package main
 // C10: build histories in one process (pooled builder residues) and concurrent builds.
 
 import (
+	"bytes"
 	"fmt"
+	"os"
+
+	"github.com/RoaringBitmap/roaring/v2"
 	"math/rand"
 	"runtime"
 	"runtime/debug"
@@ -79,8 +83,54 @@ func shapeBatch(r *rand.Rand, shape string, idBase int) []Doc {
 
 var seqShapes = []string{"big", "small", "empty", "syn", "mergey", "reject", "stored", "small", "big"}
 
+// EvSameBytes: the batch of segment sid, built again alone on emptied pools, has the same image or not.
+type EvSameBytes struct {
+	Ev   string `json:"ev"`
+	Sid  int    `json:"sid"`
+	Same bool   `json:"same"`
+	FLen int    `json:"flen"`
+	RLen int    `json:"rlen"`
+}
+
+func hasKind(batch []Doc, kind int) bool {
+	for i := range batch {
+		for j := range batch[i].Fields {
+			if batch[i].Fields[j].Kind == kind {
+				return true
+			}
+		}
+	}
+	return false
+}
+
+func imageOf(seg segment.Segment) []byte {
+	var buf bytes.Buffer
+	defer func() { recover() }()
+	if sb, ok := seg.(*zap.SegmentBase); ok {
+		sb.WriteTo(&buf)
+	}
+	return buf.Bytes()
+}
+
+// hugeBatch: more than 1024 documents with a doc-value field (several doc-value and posting chunks).
+func hugeBatch(r *rand.Rand, idBase int) []Doc {
+	n := 1030 + r.Intn(60)
+	docs := make([]Doc, n)
+	for i := range docs {
+		id := B(fmt.Sprintf("h%05d", idBase+i))
+		f := FieldInst{Name: B("a"), Typ: int('t'), DV: true, Len: 1, Toks: []Tok{{T: B([]string{"x", "y", "b"}[i%3]), Fr: 1, Locs: []Loc{}}}}
+		docs[i] = Doc{ID: id, Fields: []FieldInst{IDField(id), f}}
+		docs[i].Canon()
+	}
+	return docs
+}
+
 // BuildSeqScenario builds a random sequence of batch shapes in this process with the garbage
-// collector parked, so that every build inherits the pooled builder of the previous successful one.
+// collector parked, so that every build inherits the pooled builder of the previous successful one;
+// merges - completed and cancelled at a random poll - run in between (they share process-wide state
+// with the builds).  Afterwards every batch is built once more alone on emptied pools: the image of
+// a segment is determined by its batch and chunk mode, so the two images have the same size (their bytes may differ in the order of the
+// section entries of a field's table, which follows a map iteration).
 func (l *Life) BuildSeqScenario(n int, tag string) {
 	l.Reset(1024, tag)
 	emptyPools()
@@ -88,19 +138,88 @@ func (l *Life) BuildSeqScenario(n int, tag string) {
 	defer debug.SetGCPercent(old)
 	idBase := 0
 	modes := []int{1026, 1026, 2, 1025}
+	type built struct {
+		sid   int
+		batch []Doc
+		mode  int
+		img   []byte
+	}
+	var done []built
+	var lastTwo []*hseg
+	hugeAt := -1
+	if l.r.Intn(3) == 0 {
+		hugeAt = l.r.Intn(n)
+	}
 	for i := 0; i < n; i++ {
 		shape := seqShapes[l.r.Intn(len(seqShapes))]
 		if i == 0 && l.r.Intn(2) == 0 {
 			shape = "big"
 		}
 		b := shapeBatch(l.r, shape, idBase)
+		if i == hugeAt {
+			b = hugeBatch(l.r, idBase)
+			l.light = true
+		}
 		idBase += len(b)
 		l.noteResidue()
-		l.Build(b, modes[l.r.Intn(len(modes))])
+		mode := modes[l.r.Intn(len(modes))]
+		if h := l.Build(b, mode); h != nil {
+			done = append(done, built{h.sid, b, mode, imageOf(h.seg)})
+			lastTwo = append(lastTwo, h)
+			if len(lastTwo) > 2 {
+				lastTwo = lastTwo[1:]
+			}
+		}
+		l.light = false
+		if len(lastTwo) == 2 && l.r.Intn(3) == 0 {
+			// a merge of the two most recent segments, cancelled at a random poll (or not at all)
+			stopAt, polls := l.r.Intn(12), 0
+			ch := make(chan struct{})
+			closed := false
+			setPollHook(func() {
+				if polls == stopAt && !closed {
+					close(ch)
+					closed = true
+				}
+				polls++
+			})
+			path := l.path(l.nextFil)
+			l.nextFil++
+			os.Remove(path)
+			func() {
+				defer func() { recover() }()
+				l.plugin.Merge([]segment.Segment{lastTwo[0].seg, lastTwo[1].seg}, []*roaring.Bitmap{nil, nil}, path, ch, nil)
+			}()
+			setPollHook(nil)
+			os.Remove(path)
+			l.tr.Emit(EvNote{Ev: "note", Kind: "merge-between-builds", Data: map[string]int{"polls": polls, "cancelled_at": stopAt}})
+		}
 		if l.r.Intn(8) == 0 {
 			l.tr.Emit(EvNote{Ev: "note", Kind: "gc", Data: map[string]int{}})
 			emptyPools()
 		}
+	}
+	for _, d := range done {
+		if hasKind(d.batch, KindSyn) || hasKind(d.batch, KindVec) {
+			continue // synonym ids (and vector ids) are handed out in map order / at random: the size varies by itself
+		}
+		emptyPools()
+		zap.DefaultChunkMode = uint32(d.mode)
+		var again segment.Segment
+		func() {
+			defer func() { recover() }()
+			again, _, _ = l.plugin.New(MakeDocs(d.batch))
+		}()
+		ev := EvSameBytes{Ev: "samebytes", Sid: d.sid, FLen: len(d.img)}
+		if again != nil {
+			img := imageOf(again)
+			ev.RLen = len(img)
+			// the order of the section entries in a field's table follows a map iteration, so the bytes may differ
+			// in those entries; the size of the image may not
+			ev.Same = len(img) == len(d.img)
+			again.Close()
+		}
+		l.tr.Emit(ev)
 	}
 	for _, h := range l.live() {
 		l.Close(h)
